@@ -27,13 +27,21 @@ ASSUMPTIONS = ["tolerances: 1e-7 on unit positions and matrix entries (threshold
                "the evidence flag 'exhaustive' refers to part (b) only, part (a) is a search",
                "probe positions for addbasis keep a distance >= 0.1 min|a_i| from existing atoms (interstitial sites, as every caller uses it)",
                "known finding 2D-C2-tensor: module-level SymmTensorBasis treats the 2D two-fold rotation (-1) as killing all but the isotropic tensor; site groups in 2D "
-               "that contain the two-fold rotation and no rotation of higher order are excluded from the tensor comparison while EXCLUDE_2D_C2_TENSOR is True"]
+               "that contain the two-fold rotation and no rotation of higher order are excluded from the tensor comparison while EXCLUDE_2D_C2_TENSOR is True",
+               "known finding S4-vector: module-level VectorBasis returns the axis for roto-inversions; sites/subgroups whose point group is the cyclic group S4 are excluded "
+               "from the vector comparison while EXCLUDE_S4_VECTOR is True"]
 SHARDS = {"quick": 4, "thorough": 16}
 
 TOL = 1e-7
 
 # set to False once repaired (VERIF_C20_NO_EXCLUDE=1 switches the exclusion off for one run)
 EXCLUDE_2D_C2_TENSOR = True and not os.environ.get("VERIF_C20_NO_EXCLUDE")
+
+# known finding S4-vector: module-level VectorBasis returns the rotation axis for roto-inversions (-3, -4, -6) although they leave no
+# vector unchanged; the intersection over a group is wrong exactly when the group is the cyclic group S4 (every other group
+# containing a roto-inversion also contains an inversion, a perpendicular mirror or a second axis).  Sites (and subgroups) whose
+# point group is S4 are excluded from the vector comparison while the flag is True.
+EXCLUDE_S4_VECTOR = True and not os.environ.get("VERIF_C20_NO_EXCLUDE")
 
 ORDERS = ["sorted", "reversed", "rot1", "rot2", "evenodd"]
 
@@ -100,6 +108,11 @@ def c2_only_2d(carts):
     has2 = any(np.allclose(C, -np.eye(2), atol=1e-7) for C in carts)
     higher = any(np.linalg.det(C) > 0 and abs(np.trace(C)) < 2 - 1e-6 for C in carts)
     return has2 and not higher
+
+
+def s4_only(carts):
+    """3D cyclic group generated by a four-fold roto-inversion (order 4, contains an operation with det -1 and trace -1)"""
+    return carts[0].shape[0] == 3 and len(carts) == 4 and any(np.linalg.det(C) < 0 and abs(np.trace(C) + 1) < 1e-6 for C in carts)
 
 
 def check_vector_basis(vb, carts, d, label):
@@ -181,18 +194,28 @@ def check_subgroup(case, exclude):
     seq = reorder(ops, case["order"])
     carts = [geom.cartrot(L, R) for R in mats]
     label = "subgroup of order %d of %s(frame %d), order %s: " % (len(mats), case["lattice"], case["rot"], case["order"])
-    vb = functools.reduce(crystal.CombineVectorBasis, [crystal.VectorBasis(*g.eigen()) for g in seq])
-    nv = check_vector_basis(vb, carts, d, label)
-    classes = ["exh_%s" % case["lattice"], "order%d" % len(mats), "vdim%d" % nv]
-    if c2_only_2d(carts):
-        classes.append("2D_C2_region")
-        if exclude:
-            return {"excluded": "2D-C2-tensor", "key": canon(case), "nontrivial": len(mats) >= 2, "classes": classes + ["tensor_check_excluded"]}
-    tb = functools.reduce(crystal.CombineTensorBasis, [crystal.SymmTensorBasis(*g.eigen()) for g in seq])
-    nt = check_tensor_basis(tb, carts, d, label)
-    classes.append("tdim%d" % nt)
-    return {"key": canon(case), "nontrivial": len(mats) >= 2, "classes": classes,
+    classes = ["exh_%s" % case["lattice"], "order%d" % len(mats)]
+    excluded = None
+    nv = nt = None
+    if s4_only(carts) and exclude[1]:
+        classes += ["S4_region", "vector_check_excluded"]
+        excluded = "S4-vector"
+    else:
+        vb = functools.reduce(crystal.CombineVectorBasis, [crystal.VectorBasis(*g.eigen()) for g in seq])
+        nv = check_vector_basis(vb, carts, d, label)
+        classes.append("vdim%d" % nv)
+    if c2_only_2d(carts) and exclude[0]:
+        classes += ["2D_C2_region", "tensor_check_excluded"]
+        excluded = "2D-C2-tensor"
+    else:
+        tb = functools.reduce(crystal.CombineTensorBasis, [crystal.SymmTensorBasis(*g.eigen()) for g in seq])
+        nt = check_tensor_basis(tb, carts, d, label)
+        classes.append("tdim%d" % nt)
+    info = {"key": canon(case), "nontrivial": len(mats) >= 2, "classes": classes,
             "sample": {"lattice": case["lattice"], "frame": case["rot"], "order_of_subgroup": len(mats), "sequence": case["order"], "vector_dim": nv, "tensor_dim": nt}}
+    if excluded:
+        info["excluded"] = [excluded]
+    return info
 
 
 # ------------------------------------------------------------------------------------------------
@@ -209,7 +232,7 @@ def check_crystal(case, exclude):
     if not ok:
         raise HarnessError("brute-force space group is not a group: %s" % why)
     minlen = np.linalg.norm(L, axis=0).min()
-    nexcl = 0
+    excl = []
     # --- the library's group is exactly the brute-force group
     libG = sorted(crys.G, key=lambda g: (geom2.rotkey(g.rot), tuple(np.round(np.mod(g.trans, 1.0), 6))))
     require(len(libG) == len(ops), lambda: "crystal has %d operations, brute force finds %d" % (len(libG), len(ops)))
@@ -238,9 +261,12 @@ def check_crystal(case, exclude):
             require(np.abs(np.asarray(g.cartrot) - L @ np.asarray(g.rot) @ Linv).max() < TOL, lambda: "%scartrot is not L rot L^-1" % label)
             require(g.indexmap[c][i] == i, lambda: "%sindexmap of a point-group operation moves the site" % label)
         carts = [geom.cartrot(L, op[0]) for op in stab]
-        vdims.add(check_vector_basis(crys.VectorBasis((c, i)), carts, d, label))
-        if c2_only_2d(carts) and exclude:
-            nexcl += 1
+        if s4_only(carts) and exclude[1]:
+            excl.append("S4-vector")
+        else:
+            vdims.add(check_vector_basis(crys.VectorBasis((c, i)), carts, d, label))
+        if c2_only_2d(carts) and exclude[0]:
+            excl.append("2D-C2-tensor")
         else:
             tdims.add(check_tensor_basis(crys.SymmTensorBasis((c, i)), carts, d, label))
     # --- Wyckoffpos: complete orbit without duplicates
@@ -289,15 +315,14 @@ def check_crystal(case, exclude):
     info = {"key": canon([rec["lattice"], rec["basis"], case["probes"]]), "nontrivial": maxstab >= 2, "classes": classes,
             "sample": {"crystal": rec["name"], "lattice": rec["lattice"], "basis": rec["basis"], "probes": case["probes"], "order_G": len(ops),
                        "orbits": [[list(crys.atomindices[n]) for n in orb] for orb in orbits], "max_site_group": maxstab}}
-    if nexcl:
-        info["excluded"] = "2D-C2-tensor"
-        info["nexcluded"] = nexcl
-        info["classes"] = classes + ["tensor_check_excluded"]
+    if excl:
+        info["excluded"] = excl
+        info["classes"] = classes + sorted(set("site_check_excluded_" + e for e in excl))
     return info
 
 
 def check(case, exclude=None):
-    ex = EXCLUDE_2D_C2_TENSOR if exclude is None else exclude
+    ex = (EXCLUDE_2D_C2_TENSOR, EXCLUDE_S4_VECTOR) if exclude is None else (exclude, exclude)
     if case.get("kind") == "subgroup":
         return check_subgroup(case, ex)
     return check_crystal(case, ex)
@@ -306,11 +331,12 @@ def check(case, exclude=None):
 def run(ctx):
     def fn(case):
         info = check(case)
-        if info.get("excluded"):
-            ctx.exclude(info["excluded"], info.get("nexcluded", 1))
+        for e in info.get("excluded", ()):
+            ctx.exclude(e)
         return info
     ctx.known(replay)
     ctx.note("EXCLUDE_2D_C2_TENSOR", bool(EXCLUDE_2D_C2_TENSOR))
+    ctx.note("EXCLUDE_S4_VECTOR", bool(EXCLUDE_S4_VECTOR))
     ctx.corpus(fn)
     # (b) bounded-exhaustive: all subgroups x frames x orders, split over the shards
     allcases = exh_cases()
@@ -322,7 +348,7 @@ def run(ctx):
     cat = [{"kind": "crystal", "recipe": {"name": r["name"], "lattice": r["lattice"], "basis": r["basis"]},
             "probes": [[0.5, 0.5, 0.5][:len(r["lattice"])], [1. / 3, 2. / 3, 0.125][:len(r["lattice"])], [0.13, 0.29, 0.41][:len(r["lattice"])]]} for r in cs.catalogue()]
     ctx.cases([c for i, c in enumerate(cat) if ctx.mine(i)], fn, label="catalogue")
-    ctx.given(cases(), fn, quick=160, thorough=8000)
+    ctx.given(cases(), fn, quick=100, thorough=6000)
 
 
 def replay(case):
